@@ -23,7 +23,7 @@
    melt quotes, esett = 1 iff the backend reports the quote's invoice settled, cnt id cred = internal settlements credited to it.
 *)
 From Coq Require Import ZArith List Bool.
-From Verif Require Import Model Sem InvDb InvSwap InvMint InvMelt Corollaries Queries Footprint HRel Global GlobalQuote GlobalValue GlobalErr GlobalQuery GlobalMelt GlobalKeys Cuts CutOrder Conc Races GlobalBalance GlobalLedger Reconf.
+From Verif Require Import Model Sem InvDb InvSwap InvMint InvMelt Corollaries Queries Footprint HRel Global GlobalQuote GlobalValue GlobalErr GlobalQuery GlobalMelt GlobalKeys Cuts CutOrder Conc Races GlobalBalance GlobalLedger Reconf Trace Admin AdminProofs.
 Import ListNotations.
 Open Scope Z_scope.
 
@@ -75,6 +75,18 @@ Theorem C02_no_inflation_reconf : forall (segs : list (config * list op)) (w : w
         vS w' + vOut w' <= vR w' + per_quote (fun m : mquote => esett w' m + cnt (mq_id m) cred') (d_mq (w_db w')).
 Proof. exact @no_inflation_reconf. Qed.
 Print Assumptions C02_no_inflation_reconf.
+
+Theorem C02_no_inflation_ledger_reconf : forall (segs : list (config * list op)) (w : world) (iss : list Z) (ip : list (Z * Z)),
+       segs_ok w segs ->
+       segs_ln_ok w segs ->
+       QInv w iss (map snd ip) ->
+       VI iss w ->
+       LI ip w ->
+       let
+       '(w', ip') := ltrace_cfgs w segs ip in
+        vS w' + ext_out w' (map fst ip') <= vR w' + per_quote (esett w') (d_mq (w_db w')).
+Proof. exact @no_inflation_ledger_reconf. Qed.
+Print Assumptions C02_no_inflation_ledger_reconf.
 
 Theorem C02_swap_cut_signatures_imply_spent : forall (mem_ks : list ksrow) (active : Z) (ins : list proof) (outs : list bmsg) 
          (sg : bool) (n : nat) (f : oracle) (w : world),
